@@ -18,11 +18,11 @@ func init() {
 		Technique: "crash / CPU-budget watchdog around isolated worker processes running the real compiler and parser on hostile generated specs, command lines and environment subsets",
 		Rule: "a case is (spec string, argv, every subset of the <=5 declared options backed by a set environment variable): specs are (i) random bytes and random strings over the spec alphabet, " +
 			"(ii) concatenations of fragments biased to dangerous shapes (nested repetitions of optional groups, -- inside repetitions and choices, long | chains, deep bracket nesting up to 64), " +
-			"(iii) grammar-derived specs (depth<=3, spec-level --); argv = random mix of declared option spellings, positionals, --, -, junk (<=16 tokens). " +
+			"(iii) grammar-derived specs (depth<=3, spec-level --), (iv) ambiguous repetitions such as '(X | Y)... -a' on lines of 20-64 tokens that are rejected only after every split was tried (2% of the cases); argv = random mix of declared option spellings, positionals, --, -, junk (<=16 tokens). " +
 			"Refuting events: worker death, a panic other than the positioned spec error, per-case CPU budget (5 CPU-seconds, logical: getrusage) exceeded, spec error position outside [0,len(spec)], Error() panicking, " +
 			"an outcome that is neither acceptance nor a returned usage error. non-trivial = spec of >=3 bytes; distinct by (spec, argv).",
 		Assumptions: []string{
-			"'never hangs' is restated as bounded progress: every case (compile + parse under all env subsets) within 5 CPU-seconds, inputs bounded (spec <= 256 bytes, nesting <= 64, <= 5 options, argv <= 16 tokens)",
+			"'never hangs' is restated as bounded progress: every case (compile + parse under all env subsets) within 5 CPU-seconds, inputs bounded (spec <= 256 bytes, nesting <= 64, <= 5 options, argv <= 16 tokens, 64 for the long-line family)",
 			"stack bounded with debug.SetMaxStack(64 MiB), heap watchdog at 3 GiB",
 		},
 		Cases: tiered(60000, 3000000),
@@ -125,7 +125,54 @@ type c03Case struct {
 	Gen  string   `json:"generator"`
 }
 
+// c03Long: ambiguous repetitions on long command lines that are finally rejected (or accepted at the very end): the
+// repaired parser is polynomial here, an exponential backtracker needs 2^n or 3^n steps
+var c03LongSpecs = []string{"(X | Y)... -a", "X... Y... -a", "[X]... [Y]... -o", "(X | Y | X Y)...", "[-a] (X | Y)... -o", "(X | Y)... -- X", "[OPTIONS] (X | Y)... -p", "(X... | Y...)... -a", "[-a] X... -- Y... X"}
+
+func c03Long(c *core.Ctx) {
+	spec := c03LongSpecs[c.R.Intn(len(c03LongSpecs))]
+	n := []int{20, 28, 40, 64}[c.R.Intn(4)]
+	var argv []string
+	if c.R.Intn(3) == 0 {
+		argv = append(argv, "--")
+	}
+	for i := 0; i < n; i++ {
+		argv = append(argv, []string{"f", "g", "p1"}[c.R.Intn(3)])
+	}
+	switch c.R.Intn(3) {
+	case 0:
+		argv = append(argv, "-z") // undeclared: rejected after everything was tried
+	case 1:
+		argv = append(argv, "-a")
+	}
+	opts, args := c03Decls()
+	p := &Prog{Opts: opts, Args: args, Spec: spec}
+	mask := c.R.Intn(32)
+	var envs []string
+	for i, o := range opts {
+		o.EnvSet = mask&(1<<uint(i)) != 0
+		if o.EnvSet {
+			envs = append(envs, o.Dashed()[0])
+		}
+	}
+	d := c03Case{Spec: spec, Argv: argv, Env: strings.Join(envs, ","), Gen: "long ambiguous repetition"}
+	c.Journal(d)
+	obs := drive.Run(drive.Single(p), argv)
+	c.LibDone()
+	c.Eval()
+	c.Inc("gen_long_ambiguous")
+	c.Max("long_line_tokens", len(argv))
+	c.Nontrivial(spec, fmt.Sprintf("%q", argv), d.Env)
+	if obs.SpecErr != nil || obs.Pan != nil || obs.Exit != nil || (obs.Ran > 0) != (obs.Err == nil) {
+		c.Violation(fmt.Sprintf("undocumented outcome on a long line: specerr=%v panic=%v ran=%d err=%v", obs.SpecErr, obs.Pan, obs.Ran, obs.Err), nil, nil)
+	}
+}
+
 func runC03(c *core.Ctx) {
+	if c.Index%50 == 49 {
+		c03Long(c)
+		return
+	}
 	spec, kind, gp := c03Spec(c.R, c.Tier == "thorough")
 	argv := c03Argv(c.R)
 	opts, args := c03Decls()
